@@ -1,7 +1,7 @@
 (* C13 property theorems.  Nothing but statements closed by `exact`, a pin, and
    Print Assumptions.  The driver parses this file's output. *)
 From ZV.Common Require Import Base.
-From ZV.C13 Require Import Model ModelIO ModelReader ModelTypes ModelVersioned ModelWriter ModelRun ProofsLeb ProofsZigzag ProofsSeq ProofsIO ProofsReader ProofsTypes ProofsVersioned ProofsWriter ProofsStack.
+From ZV.C13 Require Import Model ModelIO ModelReader ModelTypes ModelVersioned ModelWriter ModelRangeWriter ModelRun ProofsLeb ProofsZigzag ProofsSeq ProofsIO ProofsReader ProofsTypes ProofsVersioned ProofsWriter ProofsStack ProofsRangeWriter.
 Open Scope N_scope.
 
 (* decode (encode v ++ rest) = (v, |encode v|): for every u64 and every trailing bytes *)
@@ -332,3 +332,36 @@ Check sbr_over_range_stream :
     sbr_stream (range_slice data r_start r_end) (sbr_init cap)
     = take (r_end - r_start) (drop (N.min r_start (nlen data)) data).
 Print Assumptions sbr_over_range_stream.
+
+(* RangeWriter: for every range, every state inside it and EVERY history of writes, flushes and seeks
+   (Start / Current / End, any offsets): every write it issues to the inner writer lies inside [start, end),
+   and it stays inside its range with the inner position = its own position *)
+Theorem range_writer_confined :
+  forall r_start r_end, r_start <= r_end ->
+  forall ops st outs st' ws, rw_inv r_start r_end st ->
+    rw_run r_start r_end ops st = (outs, st', ws) ->
+    rw_inv r_start r_end st' /\ Forall (inside r_start r_end) ws.
+Proof. exact range_writer_confined_proof. Qed.
+Check range_writer_confined :
+  forall r_start r_end, r_start <= r_end ->
+  forall ops st outs st' ws, rw_inv r_start r_end st ->
+    rw_run r_start r_end ops st = (outs, st', ws) ->
+    rw_inv r_start r_end st' /\ Forall (inside r_start r_end) ws.
+Print Assumptions range_writer_confined.
+
+(* without seeks the inner writes follow one another from the current position, carry exactly the bytes reported
+   as accepted, and the position advances by their number *)
+Theorem range_writer_contiguous :
+  forall r_start r_end ops st outs st' ws,
+    forallb is_write ops = true -> x_ipos st = x_cur st ->
+    rw_run r_start r_end ops st = (outs, st', ws) ->
+    contiguous (x_cur st) ws /\ concat (map snd ws) = rw_accepted ops outs /\
+    x_cur st' = x_cur st + nlen (rw_accepted ops outs) /\ x_ipos st' = x_cur st'.
+Proof. exact range_writer_contiguous_proof. Qed.
+Check range_writer_contiguous :
+  forall r_start r_end ops st outs st' ws,
+    forallb is_write ops = true -> x_ipos st = x_cur st ->
+    rw_run r_start r_end ops st = (outs, st', ws) ->
+    contiguous (x_cur st) ws /\ concat (map snd ws) = rw_accepted ops outs /\
+    x_cur st' = x_cur st + nlen (rw_accepted ops outs) /\ x_ipos st' = x_cur st'.
+Print Assumptions range_writer_contiguous.
